@@ -669,6 +669,31 @@ func init() {
 		c02BatchLoop(c, &sb, "batchLoopPlain", "Batcher.syncReaderToBatcher")
 		c02BatchLoop(c, &sb, "batchLoopTimed", "Batcher.syncReaderToBatcherWithTimeFlush")
 		c02Worker(c, &sb)
+		// const AutoFlushTimeout = 250 * time.Millisecond, and who passes it to the timed loop
+		if be, ok := c.Var("pkg/extractor/batchers/batcher.go", "AutoFlushTimeout").(*ast.BinaryExpr); ok && be.Op == token.MUL && exprStr(c, be.Y) == "time.Millisecond" {
+			if n, ok := IntLit(be.X); ok {
+				fmt.Fprintf(&sb, "def autoFlushTimeoutMs : Nat := %d\n", n)
+			} else {
+				sb.WriteString(untranslatable("autoFlushTimeoutMs"))
+			}
+		} else {
+			sb.WriteString(untranslatable("autoFlushTimeoutMs"))
+		}
+		var timedCalls []string
+		for _, fn := range []struct{ file, name string }{{"pkg/extractor/batchers/readerBatcher.go", "OpenReaderToChan"}, {"pkg/extractor/batchers/tailBatcher.go", "TailFilesToChan"},
+			{"pkg/extractor/batchers/fileBatcher.go", "OpenFilesToChan"}} {
+			if fd := c.Func(fn.file, fn.name); fd != nil {
+				ast.Inspect(fd, func(n ast.Node) bool {
+					if call, ok := n.(*ast.CallExpr); ok {
+						if se, ok := call.Fun.(*ast.SelectorExpr); ok && strings.HasPrefix(se.Sel.Name, "syncReaderToBatcher") && len(call.Args) > 0 {
+							timedCalls = append(timedCalls, fn.name+":"+se.Sel.Name+":"+exprStr(c, call.Args[len(call.Args)-1]))
+						}
+					}
+					return true
+				})
+			}
+		}
+		fmt.Fprintf(&sb, "/-- which constructor runs which loop, with the loop's last argument -/\ndef batchLoopCalls : List String := %s\n", leanStrList(timedCalls))
 		sb.WriteString("\nend Rare.Gen.C02\n")
 		return sb.String()
 	})
